@@ -179,6 +179,40 @@ def check_digests_and_signatures(t, spec, model, tag):
     return devs
 
 
+def check_verify_equals_reference(t, spec, model, tag):
+    """C02 invariant in every reached state: verify() of the live object says exactly what the reference interpreter
+    says about the bytes the object serialises to (sound and complete, whatever operations came before)."""
+    devs = []
+    try:
+        raw = t.raw()
+        r = rtx.parse(raw)
+    except Exception as e:
+        return [{'sig': 'hist|raw_unparseable|after_%s' % tag, 'detail': {'exc': repr(e)[:200]}}]
+    refs = refs_in_order(t, spec)
+    ok_all = True
+    for idx, (inp, ref) in enumerate(refs):
+        wit = r.wit[idx] if r.wit else []
+        try:
+            ok = interp.verify_script(r.vin[idx]['script'], ref['spk'], wit, interp.TxChecker(r, idx, ref['amount']))
+        except Exception:
+            ok = False
+        ok_all = ok_all and ok is True
+    try:
+        lv = bool(t.verify())
+    except Exception as e:
+        lv = 'raise:' + type(e).__name__
+    kinds = '+'.join(i['kind'] for i in spec['inputs'])
+    if all(e == model['epoch'] for e in model['sig_epoch']) and not (ok_all and lv is True):
+        # every input was signed (again) by the library after the last change of a signed-over field
+        devs.append({'sig': 'txhist|transaction_signed_by_the_library_with_the_right_keys_does_not_verify|after_%s' % tag,
+                     'detail': {'kinds': kinds, 'verify': lv, 'reference': ok_all}})
+    elif lv is not ok_all:
+        devs.append({'sig': 'txhist|verify_%s_where_reference_says_%s|after_%s' % (
+            'true' if lv is True else 'false' if lv is False else lv, 'valid' if ok_all else 'invalid', tag),
+            'detail': {'kinds': kinds, 'verify': lv, 'reference': ok_all}})
+    return devs
+
+
 def check_ids_and_bytes(t, spec, model, tag):
     """C06 invariants in the reached state."""
     from bitcoinlib.transactions import Transaction
